@@ -269,24 +269,24 @@ func (w *world) serveRaw() {
 }
 
 type tcase struct {
-	name     string
-	r, w     int64 // read-limit / write-limit of the listener, bytes per second
-	dir      string // download | upload
-	via      string // http | tunnel
-	conns    int
-	size     int // per connection
-	limited  bool // is this direction limited?
+	name    string
+	r, w    int64  // read-limit / write-limit of the listener, bytes per second
+	dir     string // download | upload
+	via     string // http | tunnel
+	conns   int
+	size    int  // per connection
+	limited bool // is this direction limited?
 	// capT > 0: the transfer is abandoned capT after the start (it would take far longer at the
 	// configured rate); the envelope is checked on what had been delivered until then
 	capT time.Duration
 }
 
 type outcome struct {
-	dur       time.Duration
-	rec       *recorder
-	err       string
-	corrupt   string
-	capped    bool
+	dur     time.Duration
+	rec     *recorder
+	err     string
+	corrupt string
+	capped  bool
 }
 
 func runCase(run *lib.Run, w *world, tc tcase, idx int, r *lib.RNG) outcome {
